@@ -706,6 +706,9 @@ func unescapeRunes(r []rune, i, end int) string {
 				}
 
 				i += 6
+			case char1 == 'C' && char2 == '-' && char3 == '\\' && simpleEscape(char4) != 0: // \C-\\ control of an escaped character
+				seq = append(seq, Encontrol(simpleEscape(char4)))
+				i += 4
 			case char1 == 'C' && char2 == '-': // \C- control prefix
 				if char3 == '?' {
 					seq = append(seq, Delete)
@@ -714,6 +717,9 @@ func unescapeRunes(r []rune, i, end int) string {
 				}
 
 				i += 3
+			case char1 == 'M' && char2 == '-' && char3 == '\\' && simpleEscape(char4) != 0: // \M-\\ \M-\e meta of an escaped character
+				seq = append(seq, Enmeta(simpleEscape(char4)))
+				i += 4
 			case char1 == 'M' && char2 == '-': // \M- meta prefix
 				if char3 == 0 {
 					seq = append(seq, Esc)
@@ -734,6 +740,35 @@ func unescapeRunes(r []rune, i, end int) string {
 	}
 
 	return string(seq)
+}
+
+// simpleEscape returns the character that a backslash followed by c stands for,
+// for the one-letter escapes and the escaped backslash and quotes, and 0 otherwise.
+func simpleEscape(c rune) rune {
+	switch c {
+	case 'a':
+		return Alert
+	case 'b':
+		return Backspace
+	case 'd':
+		return Delete
+	case 'e':
+		return Esc
+	case 'f':
+		return Formfeed
+	case 'n':
+		return Newline
+	case 'r':
+		return Return
+	case 't':
+		return Tab
+	case 'v':
+		return Vertical
+	case '\\', '"', '\'':
+		return c
+	}
+
+	return 0
 }
 
 // octDigit returns true when r is 0-7.
